@@ -2,6 +2,7 @@ import TrucModel.Model.Replay
 import TrucModel.Model.VecConvert
 import TrucModel.Model.Gen
 import TrucModel.Model.Machine
+import TrucModel.Model.Static
 /-
   Line-protocol driver (channel L): one request per line on stdin, one answer per line on stdout.
 -/
@@ -298,6 +299,26 @@ def run (xs : XS) (toks : List String) : XS × String :=
 
 end X
 
+/-! ### compile probes: the lab's real types -/
+namespace P
+open Truc.Static
+
+def labTable : List (String × Nat × Nat × Bool × Bool × Bool) :=   -- name, size, align, Copy, Send, Sync
+  [("P1", 1, 1, true, true, true), ("P2", 2, 2, true, true, true), ("P4", 4, 4, true, true, true), ("P8", 8, 8, true, true, true),
+   ("P16", 16, 16, true, true, true), ("P3", 3, 1, true, true, true), ("P12", 12, 4, true, true, true), ("P24", 24, 8, true, true, true),
+   ("H", 8, 8, false, true, true), ("O3", 3, 1, false, true, true), ("A16", 16, 16, false, true, true), ("Z", 0, 1, false, true, true),
+   ("Z8", 0, 8, false, true, true), ("NS", 8, 8, false, false, false), ("NY", 8, 8, false, true, false)]
+
+def look (t : String) := labTable.find? (fun p => p.1 == t)
+
+def labEnv : TyEnv :=
+  { size := fun t => match look t with | some p => p.2.1 | none => 0,
+    align := fun t => match look t with | some p => p.2.2.1 | none => 0,
+    copy := fun t => match look t with | some p => p.2.2.2.1 | none => false,
+    send := fun t => match look t with | some p => p.2.2.2.2.1 | none => false,
+    sync := fun t => match look t with | some p => p.2.2.2.2.2 | none => false }
+end P
+
 structure DState where
   b : BState := {}
   built : Option Definition := none
@@ -381,6 +402,17 @@ def dstep (s : DState) (line : String) : DState × String :=
         (s, match Gen.module d cfg with
           | some items => "ir " ++ "\t".intercalate (Gen.render items)
           | none => "panic")
+      | none => (s, "bad-op")
+    | ["static"] =>
+      match s.built with
+      | some d => (s, if Static.acceptsB P.labEnv d then "accept" else "reject")
+      | none => (s, "bad-op")
+    | ["autotraits"] =>
+      match s.built with
+      | some d =>
+        let ss := Gen.specs d
+        (s, "send=" ++ ",".intercalate (ss.map fun sp => toString (Static.recordSend P.labEnv sp)) ++
+            " sync=" ++ ",".intercalate (ss.map fun sp => toString (Static.recordSync P.labEnv sp)))
       | none => (s, "bad-op")
     | ["replay", st] =>
       match s.built, parseStrategy st with
